@@ -135,25 +135,59 @@ func (t c811Trace) String() string {
 
 var c811MockCfg = &config.MockConfig{}
 
+// c811Annotation is the reserved key by which a span of a case says that it is a span event or a span link
+// (value "span_event" / "link"): it becomes the payload's meta.annotation_type, as on the ingest path.
+const c811Annotation = "meta.annotation_type"
+
+func c811BuildSpan(traceID string, s c811Span, isRoot bool) *types.Span {
+	data := make(map[string]any, len(s))
+	kind := ""
+	for k, v := range s {
+		if k == c811Annotation {
+			if v.T == "s" {
+				kind = v.S
+			}
+			continue
+		}
+		data[k] = v.any()
+	}
+	sp := &types.Span{
+		TraceID: traceID,
+		Event:   &types.Event{Data: types.NewPayload(c811MockCfg, data)},
+	}
+	if kind != "" {
+		sp.Data.Set(c811Annotation, kind)
+	}
+	sp.IsRoot = isRoot
+	return sp
+}
+
 func c811Build(traceID string, t c811Trace) *types.Trace {
 	tr := &types.Trace{TraceID: traceID}
+	c811Extend(tr, t, 0, len(t.Spans))
+	return tr
+}
+
+// c811Extend adds spans [from, to) of t to an existing trace object (arrival of further spans).
+func c811Extend(tr *types.Trace, t c811Trace, from, to int) {
 	root := t.rootIdx()
-	for i, s := range t.Spans {
-		data := make(map[string]any, len(s))
-		for k, v := range s {
-			data[k] = v.any()
-		}
-		sp := &types.Span{
-			TraceID: traceID,
-			Event:   &types.Event{Data: types.NewPayload(c811MockCfg, data)},
-		}
+	for i := from; i < to && i < len(t.Spans); i++ {
+		sp := c811BuildSpan(tr.TraceID, t.Spans[i], i == root)
 		if i == root {
-			sp.IsRoot = true
 			tr.RootSpan = sp
 		}
 		tr.AddSpan(sp)
 	}
-	return tr
+}
+
+func (t c811Trace) annotations() int {
+	n := 0
+	for _, s := range t.Spans {
+		if _, ok := s[c811Annotation]; ok {
+			n++
+		}
+	}
+	return n
 }
 
 // c811Shuffle returns a permutation of 0..n-1 determined by seed (harness-owned splitmix64).
